@@ -205,17 +205,20 @@ template <class A> std::string jrows(const std::vector<A>& rows) {
     return s + "]";
 }
 
+int g_mode = 3;  // bit 0: upload-side view, bit 1: fetch-side view
 void emit_state(ev::Ev& e, const std::vector<Frame>& frames, int npeers, int nchunks) {
     std::vector<std::array<long long, 4>> fr;
     for (const auto& f : frames) fr.push_back({f.p, f.kind, f.c, f.flag});
     e.i("t", now_ms()).raw("fr", jrows(fr));
     auto v = TA::view(*W->node, [](const PeerId& id) { return static_cast<long long>(peer_of(id)); },
                       [](const ChunkId& id) { return static_cast<long long>(chunk_of(id)); });
-    e.raw("act", jrows(v.act)).raw("per", jrows(v.per)).raw("q", jrows(v.queue)).raw("pf", jrows(v.fetches)).raw("apr", jrows(v.apr));
+    if (g_mode & 1) e.raw("act", jrows(v.act)).raw("per", jrows(v.per)).raw("q", jrows(v.queue));
+    if (g_mode & 2) e.raw("pf", jrows(v.fetches)).raw("apr", jrows(v.apr));
     std::vector<long long> held, sess;
     for (int c = 1; c <= nchunks; ++c) if (TA::held(*W->node, cid(c))) held.push_back(c);
     for (int p = 1; p <= npeers; ++p) if (W->peers[p].fd >= 0 && TA::sessions(*W->node).is_connected(W->peers[p].id)) sess.push_back(p);
-    e.ints("held", held).ints("sess", sess);
+    if (g_mode & 2) e.ints("held", held);
+    e.ints("sess", sess);
 }
 }  // namespace
 
@@ -234,6 +237,7 @@ int main(int argc, char** argv) {
             destroy_world();
             vclock::set_ns(0);
             vrng::seed(0x5EED0000ull + static_cast<std::uint64_t>(++nreset));
+            g_mode = c.s("mode", "all") == "up" ? 1 : c.s("mode", "all") == "fe" ? 2 : 3;
             npeers = static_cast<int>(std::min<long long>(c.i("peers", 2), kMaxPeers));
             nchunks = static_cast<int>(std::min<long long>(c.i("chunks", 4), kMaxChunks));
             Config cfg{};
@@ -269,7 +273,7 @@ int main(int argc, char** argv) {
             for (int p = 1; p <= kMaxPeers; ++p) { W->peers[p].id = pid(p); W->peer_no[pid(p)] = p; }
             for (int k = 1; k <= kMaxChunks; ++k) W->chunk_no[cid(k)] = k;
             const Config& eff = W->node->config();
-            ev::Ev("reset").i("t", now_ms()).i("peers", npeers).i("chunks", nchunks)
+            ev::Ev("reset").s("mode", c.s("mode", "all")).i("t", now_ms()).i("peers", npeers).i("chunks", nchunks)
                 .i("maxpar", eff.upload_max_parallel_transfers).i("perpeer", eff.upload_max_transfers_per_peer)
                 .i("uto", eff.upload_transfer_timeout.count()).i("recon", eff.upload_reconsider_interval.count())
                 .i("flimit", eff.fetch_max_parallel_requests).i("alimit", eff.fetch_retry_attempt_limit)
